@@ -154,7 +154,13 @@ class Interp:
                 eng.assume_alive(st, v)
                 self_v = v
             else:
-                kind = contract.params.get(name) or self.kind_from_annotation(arg.annotation)
+                vp = eng.cur_variant_params or {}
+                kind = vp.get(name) or contract.params.get(name) or self.kind_from_annotation(arg.annotation)
+                if callable(kind):
+                    v = kind(eng, st)
+                    args[name] = v
+                    st.env[name] = v
+                    continue
                 v = eng.mk(kind, f"arg_{name}")
                 if isinstance(v, VRef):
                     eng.assume_alive(st, v)
@@ -190,7 +196,7 @@ class Interp:
         fkey = eng.canon_func_key(self.fi.key)
         if outcome == "normal":
             eng.cover(f"{fkey}:exit-normal")
-            for label, props, goal in contract.ensures(ctx):
+            for label, props, goal in list(contract.ensures(ctx)) + list(contract.checks(ctx)):
                 eng.oblige(st, label, goal, props=props, kind="post")
         else:
             exc = ctx.exc
@@ -205,7 +211,7 @@ class Interp:
                     kind="raises",
                     extra={"exc": exc.cls},
                 )
-            for label, props, goal in contract.exc_ensures(ctx, exc):
+            for label, props, goal in list(contract.exc_ensures(ctx, exc)) + list(contract.exc_checks(ctx, exc)):
                 eng.oblige(st, label, goal, props=props, kind="exc-post")
         return outcome
 
@@ -313,13 +319,17 @@ class Interp:
     def on_field_write(self, st, obj, key, v, node):
         """hook: guarded_by / frame obligations are raised from here by the contract"""
         c = self.contract
+        st.trace.append(Event("field.write", {"key": key, "obj": obj, "value": v, "held": list(st.held)}, self.site(node)))
         hook = getattr(c, "on_field_write", None)
         if hook is not None:
-            hook(self.ctx, obj, key, v, node)
+            for label, props, goal in hook(self.ctx, obj, key, v, node) or []:
+                self.eng.oblige(st, label, goal, props=props, kind="call-pre", extra={"site": self.site(node)})
         for h in self.eng.reg.__dict__.get("field_write_hooks", []):
             h(self, st, obj, key, v, node)
 
     def on_field_read(self, st, obj, key, node):
+        if key in self.eng.reg.__dict__.get("watch_reads", ()):
+            st.trace.append(Event("field.read", {"key": key, "obj": obj, "held": list(st.held)}, self.site(node)))
         for h in self.eng.reg.__dict__.get("field_read_hooks", []):
             h(self, st, obj, key, node)
 
@@ -608,6 +618,10 @@ class Interp:
             pass
         for label, props, goal in inv() or []:
             eng.oblige(st, f"loop{ordinal}:{label}:keep", goal, props=props, kind="inv-keep")
+        be = getattr(c, "on_back_edge", None)
+        if be is not None and self.depth == 0:
+            for label, props, goal in be(self.ctx, ordinal) or []:
+                eng.oblige(st, f"loop{ordinal}:{label}", goal, props=props, kind="inv-keep")
         eng.cover(f"{eng.canon_func_key(self.fi.key)}:loop{ordinal}:back-edge")
         raise PathEnd()
 
@@ -769,6 +783,20 @@ class Interp:
             h = eng.reg.find_attr_stub(eng, obj.cls, name)
             if h is not None:
                 return h(self, st, obj)
+            # repository property / class constant (most specific class first)
+            for k in eng.reg._mro(eng, obj.cls):
+                ci = eng.repo.cls(eng.tree_name(k))
+                if ci is None:
+                    continue
+                fi = eng.repo.modules[ci.module].funcs.get(f"{ci.name}.{name}")
+                if fi is not None:
+                    if "property" in fi.decorators:
+                        return self.call_repo(st, eng.canon(fi.key), obj, [], {}, node)
+                    break
+                if name in ci.consts:
+                    sub = Interp(eng, FuncInfo(ci.module, "<class>", ast.parse("pass"), None, "", False, []), depth=self.depth + 1)
+                    sub.contract, sub.ctx = self.contract, self.ctx
+                    return sub.eval(st, ci.consts[name])
             # bound method
             return VFunc(name, bound=obj)
         if isinstance(obj, VModule):
@@ -1022,7 +1050,7 @@ class Interp:
         eng = self.eng
         c = eng.reg.contracts.get(key)
         if c is not None and not c.inline and not (self.depth == 0 and False):
-            ev = Event("call:" + key, {"self": self_v, "args": args, "kwargs": kwargs}, self.site(node))
+            ev = Event("call:" + key, {"self": self_v, "args": args, "kwargs": kwargs, "shield": st.shield, "held": list(st.held)}, self.site(node))
             st.trace.append(ev)
             self.fire_callsite(st, ev)
             return c.apply(self, st, self_v, args, kwargs, node)
